@@ -320,7 +320,7 @@ def _pull(ctx, R, roles, T):
     for (m, d, l) in loop_exit_edges(g, it):
         if m is it and l == "exhausted":
             continue
-        on_done = m in g.reach_from_edge(tn, done_lab, avoid=[it], exc=False) and m not in g.reach_from_edge(tn, data_lab, avoid=[it], exc=True)
+        on_done = (m is tn and l == done_lab) or (m in g.reach_from_edge(tn, done_lab, avoid=[it], exc=False) and m not in g.reach_from_edge(tn, data_lab, avoid=[it], exc=True))
         R.check(on_done, "CEO-pull", "%s|exit|%s" % (q, norm_stmt(m.ast) if m.ast is not None else m.kind), "the record loop is left only on DONE",
                 "the record loop can be left at `%s` before DONE: the file is truncated" % (norm_stmt(m.ast) if m.ast is not None else m.kind), f.loc(m.ast))
     callback_contained(ctx, R, roles, T, f, ("proj", item, 2), "CB-pull")
